@@ -22,6 +22,8 @@ ENG = ["sgn_i", "sgc_i", "sgn_v", "sgc_v"]
 
 def close_case(c):
     """append: (coroutine driver: pause,) drop every remaining strong handle, then (coroutine driver) one pause so that everything queued has run"""
+    if c.engine == "sx_i":
+        return c
     ops = [list(o) for o in c.ops]
     strong = 1
     for o in ops:
@@ -192,6 +194,11 @@ def gen(seed, tier):
 
 
 def nontrivial(case, model_obs):
+    if case.engine == "sx_i":
+        # at least 3 thread switches in the executed trace and somebody was taken by an exchange
+        tids = [l.split()[0] for l in model_obs if len(l.split()) == 2]
+        sw = sum(1 for a, b in zip(tids, tids[1:]) if a != b)
+        return sw >= 3 and any(l.startswith("8 ") for l in model_obs)
     for l in model_obs:
         a = l.split()
         if len(a) < 4 or a[0] != "0": continue
@@ -223,6 +230,8 @@ def signature(case, impl_obs, model_obs):
         return "sg:" + (last.split()[1] if len(last.split()) > 1 else "crash")
     if last in ("HANG", "MISSING"):
         return "sg:" + last
+    if case.engine == "sx_i":
+        return "sx:deadlock" if any(l.startswith("777") for l in impl_obs) else "sx:oracle"
     if case.engine in ("sgc_i", "sgc_v"):
         # the strict oracle failed; does the variant that lets a listener queued by a discarded suspend point be
         # overrun by a later collector call / the last drop accept the very same trace?  Then (and only then) this is F-C15.
@@ -231,4 +240,48 @@ def signature(case, impl_obs, model_obs):
     return case.engine[:3] + ":oracle"
 
 
-PARTS = [{"name": "vm_signal", "harness": "vm_signal.cpp", "gen": gen}]
+# ---------------------------------------------------------------- cross-thread scenarios (engine sx_i, harness ctl_signal.cpp)
+def xmk(name, subs, acts, sched, order=None):
+    decl = [[1, k, l] for (k, l) in subs] + [[2] + list(acts)]
+    if order is not None:
+        decl = [decl[i] for i in order]
+    return Case("sx_i", name, decl + [[9] + list(sched)])
+
+
+def gen_x(seed, tier):
+    import itertools
+    rng = random.Random(seed * 15485863 + 1515)
+    n = 250 if tier == "quick" else 3000
+    cases = []
+    for i in range(n):
+        ns = rng.choice([1, 1, 2, 2, 3, 4])
+        subs = [(rng.choice([0, 1, 1, 2, 2, 3]), rng.choice([0, 1, 2, 3])) for _ in range(ns)]
+        ne = rng.choice([0, 1, 1, 2, 3])
+        acts = [1] * ne + ([0] if rng.random() < 0.93 else [])
+        order = list(range(ns + 1)); rng.shuffle(order)
+        L = rng.choice([0, 6, 12, 20, 30, 40])
+        style = rng.random()
+        if style < 0.5:
+            sched = [rng.randint(0, 5) for _ in range(L)]
+        elif style < 0.8:      # bursts: one thread runs for a while (opens the window between asub/apub and rchain/walk)
+            sched = []
+            while len(sched) < L:
+                sched += [rng.randint(0, 5)] * rng.randint(1, 5)
+        else:
+            sched = [rng.choice([5, 4, 3, 0]) for _ in range(L)]
+        cases.append(xmk("x%d" % i, subs, acts, sched, order))
+    if tier != "quick":
+        j = 0
+        cfgs = [([(0, 0)], [1, 0]), ([(1, 0)], [1, 0]), ([(2, 0)], [1, 1, 0]), ([(3, 0)], [1, 0]), ([(1, 0), (2, 1)], [1, 0]),
+                ([(0, 0), (1, 0)], [0]), ([(2, 2), (3, 0)], [1, 1, 0])]
+        for (subs, acts) in cfgs:
+            for pre in itertools.product(range(3), repeat=7):
+                cases.append(xmk("y%d" % j, subs, acts, pre)); j += 1
+    # malformed: no collector / two collectors
+    cases.append(Case("sx_i", "bad0", [[1, 0, 0], [9, 0, 0]]))
+    cases.append(Case("sx_i", "bad1", [[2, 1, 0], [2, 1], [1, 0, 0], [9, 1]]))
+    return cases
+
+
+PARTS = [{"name": "vm_signal", "harness": "vm_signal.cpp", "gen": gen},
+         {"name": "ctl_signal", "harness": "ctl_signal.cpp", "gen": gen_x, "timeout_case": 10}]
